@@ -20,6 +20,221 @@ def goodRows (samp : List SRow) (ref : List RRow) : List SRow :=
 def KeysSortable (samp : List SRow) : Prop :=
   ∀ a ∈ samp, ∀ b ∈ samp, sSortLe a b = true → sSortLe b a = true → sKey a = sKey b
 
+/-! ### helpers -/
+
+/-- `sSortLe` only reads the coordinates: the same comparison on keys -/
+def kLe (a b : String × Int × Int) : Bool :=
+  let ka := sorterChrom a.1
+  let kb := sorterChrom b.1
+  chromKeyLt ka kb || (ka == kb && (a.2.1 < b.2.1 || (a.2.1 == b.2.1 && a.2.2 ≤ b.2.2)))
+
+theorem sSortLe_eq_kLe (a b : SRow) : sSortLe a b = kLe (sKey a) (sKey b) := rfl
+
+/-- KEY STEP: a sorted list of rows is determined (as a list of coordinates) by its multiset of
+    coordinates, as long as genomic order separates the coordinates involved -/
+theorem keys_eq_of_sorted (samp l1 l2 : List SRow) (hks : KeysSortable samp)
+    (h1 : ∀ a ∈ l1, sKey a ∈ samp.map sKey) (h2 : ∀ a ∈ l2, sKey a ∈ samp.map sKey)
+    (s1 : l1.Pairwise (fun a b => sSortLe a b = true))
+    (s2 : l2.Pairwise (fun a b => sSortLe a b = true))
+    (hp : (l1.map sKey).Perm (l2.map sKey)) : l1.map sKey = l2.map sKey := by
+  refine List.Perm.eq_of_pairwise (le := fun a b => kLe a b = true) ?_ ?_ ?_ hp
+  · intro ka kb ha hb hab hba
+    obtain ⟨a, ha1, rfl⟩ := List.mem_map.mp ha
+    obtain ⟨b, hb1, rfl⟩ := List.mem_map.mp hb
+    obtain ⟨a', ha', hka⟩ := List.mem_map.mp (h1 a ha1)
+    obtain ⟨b', hb', hkb⟩ := List.mem_map.mp (h2 b hb1)
+    rw [← hka, ← hkb] at hab hba ⊢
+    exact hks a' ha' b' hb' hab hba
+  · rw [List.pairwise_map]; exact s1
+  · rw [List.pairwise_map]; exact s2
+
+/-- one correction leaves the list of coordinates as it was -/
+theorem cbw_keys (samp : List SRow) (hks : KeysSortable samp) (perm : List Nat) (wing : Nat)
+    (t : List SRow) (keys : List Rat)
+    (ht : t.Pairwise (fun a b => sSortLe a b = true))
+    (hsub : ∀ a ∈ t, sKey a ∈ samp.map sKey)
+    (hp : IsPerm perm t.length) (hk : keys.length = t.length) :
+    (centerByWindow perm wing t keys).map sKey = t.map sKey := by
+  have hrows := centerByWindow_rows perm wing t keys hp hk
+  have hkp : ((centerByWindow perm wing t keys).map sKey).Perm (t.map sKey) := by
+    have := hrows.map (fun p : String × Int × Int × String × Rat => (p.1, p.2.1, p.2.2.1))
+    rw [List.map_map, List.map_map] at this
+    exact this
+  refine keys_eq_of_sorted samp _ _ hks ?_ hsub (centerByWindow_sorted perm wing t keys) ht hkp
+  intro a ha
+  have : sKey a ∈ t.map sKey := hkp.mem_iff.mp (List.mem_map_of_mem ha)
+  obtain ⟨b, hb, hab⟩ := List.mem_map.mp this
+  rw [← hab]; exact hsub b hb
+
+/-- invariant of the chain of corrections: in genomic order, coordinates as after centring -/
+def FixTracks (cn1 t : List SRow) : Prop :=
+  t.Pairwise (fun a b => sSortLe a b = true) ∧ t.map sKey = cn1.map sKey
+
+theorem FixTracks.length {cn1 t : List SRow} (h : FixTracks cn1 t) : t.length = cn1.length := by
+  have := congrArg List.length h.2
+  simpa using this
+
+theorem fixTracks_step (samp : List SRow) (hks : KeysSortable samp) (cn1 : List SRow)
+    (hsub1 : ∀ a ∈ cn1, sKey a ∈ samp.map sKey) (perm : List Nat) (wing : Nat)
+    (hp : IsPerm perm cn1.length) (t : List SRow) (ht : FixTracks cn1 t) (c : Bool) (keys : List Rat)
+    (hk : c = true → keys.length = t.length) :
+    FixTracks cn1 (if c = true then centerByWindow perm wing t keys else t) := by
+  by_cases hc : c = true
+  · rw [if_pos hc]
+    have hsub : ∀ a ∈ t, sKey a ∈ samp.map sKey := by
+      intro a ha
+      have : sKey a ∈ cn1.map sKey := by rw [← ht.2]; exact List.mem_map_of_mem ha
+      obtain ⟨b, hb, hab⟩ := List.mem_map.mp this
+      rw [← hab]; exact hsub1 b hb
+    have hp' : IsPerm perm t.length := by rw [ht.length]; exact hp
+    exact ⟨centerByWindow_sorted perm wing t keys,
+      (cbw_keys samp hks perm wing t keys ht.1 hsub hp' (hk hc)).trans ht.2⟩
+  · rw [if_neg hc]; exact ht
+
+/-! ### the edge-bias keys are positional: one per row -/
+
+theorem edgeBiasChrom_length (tiles : List (Int × Int)) (m : Int) :
+    (edgeBiasChrom tiles m).length = tiles.length := by
+  simp [edgeBiasChrom]
+
+theorem length_filter_add' {α} (p : α → Bool) (t : List α) :
+    (t.filter p).length + (t.filter (fun r => !p r)).length = t.length := by
+  induction t with
+  | nil => rfl
+  | cons x t ih =>
+    by_cases h : p x = true <;> simp [h] <;> omega
+
+/-- the chromosome groups partition the table -/
+theorem sum_groups' {α} (key : α → String) (ks : List String) (t : List α) (h : ∀ r ∈ t, key r ∈ ks) :
+    ((ks.eraseDups).map (fun c => (t.filter (fun r => key r == c)).length)).sum = t.length := by
+  match ks with
+  | [] =>
+    cases t with
+    | nil => rfl
+    | cons x t => exact absurd (h x (List.mem_cons_self ..)) (by simp)
+  | k :: ks' =>
+    rw [List.eraseDups_cons, List.map_cons, List.sum_cons]
+    have hlen : (ks'.filter (fun b => !b == k)).length < (k :: ks').length :=
+      Nat.lt_succ_of_le (List.length_filter_le _ _)
+    have ih := sum_groups' key (ks'.filter (fun b => !b == k)) (t.filter (fun r => !(key r == k)))
+      (by
+        intro r hr
+        rw [List.mem_filter] at hr ⊢
+        have h1 := h r hr.1
+        have h2 := hr.2
+        simp only [Bool.not_eq_true', beq_eq_false_iff_ne, ne_eq] at h2
+        rcases List.mem_cons.mp h1 with h1 | h1
+        · exact absurd h1 h2
+        · exact ⟨h1, by simpa using h2⟩)
+    have hcongr : ((ks'.filter (fun b => !b == k)).eraseDups).map
+          (fun c => (t.filter (fun r => key r == c)).length) =
+        ((ks'.filter (fun b => !b == k)).eraseDups).map
+          (fun c => ((t.filter (fun r => !(key r == k))).filter (fun r => key r == c)).length) := by
+      apply List.map_congr_left
+      intro c hc
+      rw [List.mem_eraseDups, List.mem_filter] at hc
+      have hck : c ≠ k := by simpa using hc.2
+      rw [List.filter_filter]
+      congr 1
+      apply List.filter_congr
+      intro r _
+      by_cases hrc : key r = c
+      · subst hrc; simp [hck]
+      · simp [hrc]
+    rw [hcongr, ih]
+    exact length_filter_add' _ t
+termination_by ks.length
+
+theorem edgeBias_length (t : List SRow) (m : Int) : (edgeBias t m).length = t.length := by
+  unfold edgeBias
+  rw [List.length_flatMap]
+  have : (fun c => (edgeBiasChrom ((t.filter (·.chrom == c)).map (fun r => (r.s, r.e))) m).length)
+      = (fun c => (t.filter (fun r => r.chrom == c)).length) := by
+    funext c
+    rw [edgeBiasChrom_length, List.length_map]
+  rw [this]
+  exact sum_groups' (·.chrom) _ t (fun r hr => List.mem_map_of_mem hr)
+
+/-! ### the matched reference rows, the mask and `goodRows` -/
+
+theorem all_some_of_no_none {α} (l : List (Option α)) (h : ¬ (l.filter (·.isNone)).length > 0) :
+    l = (l.filterMap id).map some := by
+  induction l with
+  | nil => rfl
+  | cons a t ih =>
+    cases a with
+    | none => simp at h
+    | some q =>
+      have h' : ¬ (t.filter (·.isNone)).length > 0 := by simpa using h
+      have hcons : (some q :: t).filterMap id = q :: t.filterMap id := rfl
+      rw [hcons, List.map_cons, ← ih h']
+
+/-- a successful match is the row-by-row lookup -/
+theorem matchRef_lookup (ref : List RRow) (samp : List SRow) (m : List RRow)
+    (h : matchRef ref samp = .ok m) : samp.map (refFind ref) = m.map some := by
+  rw [matchRef_eq] at h
+  split at h
+  · cases h
+  · split at h
+    · cases h
+    · split at h
+      · cases h
+      · rename_i hm
+        cases h
+        exact all_some_of_no_none _ hm
+
+/-- masking the sample with the matched reference = keeping the good rows; the kept reference
+    rows carry the same coordinates position by position -/
+theorem mask_eq_goodRows (ref : List RRow) (samp : List SRow) (m : List RRow)
+    (h : samp.map (refFind ref) = m.map some) :
+    ((samp.zip (m.map (fun r => !badBin r))).filter (·.2)).map (·.1) = goodRows samp ref ∧
+    (m.filter (fun r => !badBin r)).map rKey = (goodRows samp ref).map sKey := by
+  induction samp generalizing m with
+  | nil =>
+    cases m with
+    | nil => exact ⟨rfl, rfl⟩
+    | cons q m => simp at h
+  | cons a t ih =>
+    cases m with
+    | nil => simp at h
+    | cons q m =>
+      rw [List.map_cons, List.map_cons, List.cons.injEq] at h
+      obtain ⟨hq, ht⟩ := h
+      obtain ⟨ih1, ih2⟩ := ih m ht
+      have hfind : ref.find? (fun q => rKey q == sKey a) = some q := hq
+      have hkey : rKey q = sKey a := by
+        have := List.find?_some hfind
+        simpa using this
+      have hg : goodRows (a :: t) ref = if (!badBin q) = true then a :: goodRows t ref else goodRows t ref := by
+        unfold goodRows
+        rw [List.filter_cons, hfind]
+      rw [hg]
+      cases hb : badBin q with
+      | true =>
+        simp only [List.map_cons, List.zip_cons_cons, List.filter_cons, hb, Bool.not_true,
+          Bool.false_eq_true, if_false]
+        exact ⟨ih1, ih2⟩
+      | false =>
+        simp only [List.map_cons, List.zip_cons_cons, List.filter_cons, hb, Bool.not_false, if_true]
+        rw [ih1, ih2, hkey]
+        exact ⟨rfl, rfl⟩
+
+theorem goodRows_perm (samp samp' : List SRow) (ref : List RRow) (hp : samp'.Perm samp) :
+    (goodRows samp' ref).Perm (goodRows samp ref) := hp.filter _
+
+theorem centerS_keys (skipLow : Bool) (par : Option String) (t : List SRow) :
+    (centerS skipLow par t).map sKey = t.map sKey := by
+  unfold centerS
+  rw [List.map_map]
+  rfl
+
+theorem centerS_sorted (skipLow : Bool) (par : Option String) (t : List SRow)
+    (h : t.Pairwise (fun a b => sSortLe a b = true)) :
+    (centerS skipLow par t).Pairwise (fun a b => sSortLe a b = true) := by
+  unfold centerS
+  rw [List.pairwise_map]
+  exact h
+
 /-- MAIN: for any permutation the shuffle may use and any half-window, whatever corrections are on -/
 theorem loadAdjust_aligned (samp : List SRow) (ref : List RRow) (skipLow fixGc fixEdge fixRmask : Bool)
     (par : Option String) (perm : List Nat) (wing : Nat) (ek : Option (List Rat))
@@ -33,7 +248,86 @@ theorem loadAdjust_aligned (samp : List SRow) (ref : List RRow) (skipLow fixGc f
     cn.Pairwise (fun a b => sSortLe a b = true) ∧
     -- … each next to its own reference row, which passes the filters
     rf.map rKey = cn.map sKey ∧ (∀ q ∈ rf, badBin q = false ∧ q ∈ ref) := by
-  sorry
+  unfold loadAdjust at h
+  by_cases he : samp.isEmpty
+  · rw [if_pos he] at h
+    cases h
+    have : samp = [] := by simpa using he
+    subst this
+    refine ⟨?_, List.Pairwise.nil, rfl, ?_⟩
+    · exact List.Perm.refl _
+    · intro q hq; cases hq
+  · rw [if_neg he] at h
+    extract_lets samp' at h
+    have hsp : samp'.Perm samp := List.mergeSort_perm _ _
+    split at h
+    · cases h
+    · rename_i refM hm
+      extract_lets keep cn0 rf' cn1 nOk cn2 ekeys cn3 cn4 exact slack at h
+      obtain ⟨_, hmem⟩ := matchRef_ok ref samp' refM hm
+      obtain ⟨hcn0, hrfk⟩ := mask_eq_goodRows ref samp' refM (matchRef_lookup ref samp' refM hm)
+      have hcn0' : cn0 = goodRows samp' ref := hcn0
+      have hrf' : rf'.map rKey = cn0.map sKey := by rw [hcn0']; exact hrfk
+      have hcn0s : cn0.Pairwise (fun a b => sSortLe a b = true) := by
+        rw [hcn0']; exact (sortS_sorted samp).filter _
+      have hcn1k : cn1.map sKey = cn0.map sKey := centerS_keys skipLow par cn0
+      have hcn1s : cn1.Pairwise (fun a b => sSortLe a b = true) := centerS_sorted skipLow par cn0 hcn0s
+      have hlen1 : cn1.length = cn0.length := by simpa using congrArg List.length hcn1k
+      have hlenrf : rf'.length = cn1.length := by
+        have := congrArg List.length hrf'
+        simp only [List.length_map] at this
+        omega
+      have hp1 : IsPerm perm cn1.length := by rw [hlen1, hcn0']; exact hperm
+      have hsub1 : ∀ a ∈ cn1, sKey a ∈ samp.map sKey := by
+        intro a ha
+        have : sKey a ∈ cn0.map sKey := by rw [← hcn1k]; exact List.mem_map_of_mem ha
+        obtain ⟨b, hb, hab⟩ := List.mem_map.mp this
+        rw [← hab]
+        rw [hcn0'] at hb
+        exact List.mem_map_of_mem (hsp.mem_iff.mp (List.mem_filter.mp hb).1)
+      have hrfgood : ∀ q ∈ rf', badBin q = false ∧ q ∈ ref := by
+        intro q hq
+        have := List.mem_filter.mp hq
+        exact ⟨by simpa using this.2, hmem q this.1⟩
+      -- whatever list `t` tracks `cn1`, the conclusion holds for it
+      have hfinal : ∀ t, FixTracks cn1 t →
+          (t.map sKey).Perm ((goodRows samp ref).map sKey) ∧
+          t.Pairwise (fun a b => sSortLe a b = true) ∧
+          rf'.map rKey = t.map sKey ∧ (∀ q ∈ rf', badBin q = false ∧ q ∈ ref) := by
+        intro t ht
+        have hk : t.map sKey = cn0.map sKey := ht.2.trans hcn1k
+        refine ⟨?_, ht.1, by rw [hk]; exact hrf', hrfgood⟩
+        rw [hk, hcn0']
+        exact (goodRows_perm samp samp' ref hsp).map sKey
+      have ht1 : FixTracks cn1 cn1 := ⟨hcn1s, rfl⟩
+      split at h
+      · have h' := Except.ok.inj h
+        rw [Prod.mk.injEq, Prod.mk.injEq] at h'
+        obtain ⟨e1, e2, _⟩ := h'
+        rw [← e1, ← e2]
+        exact hfinal cn1 ht1
+      · have ht2 : FixTracks cn1 cn2 :=
+          fixTracks_step samp hks cn1 hsub1 perm wing hp1 cn1 ht1 _ _ (by
+            intro _; rw [List.length_map]; exact hlenrf)
+        have hek : ekeys.length = cn2.length := by
+          show (match ek with
+            | some ks => if (ks.length == cn2.length) = true then ks else edgeBias cn2 Generated.INSERT_SIZE
+            | none => edgeBias cn2 Generated.INSERT_SIZE).length = cn2.length
+          split
+          · split
+            · rename_i hh; simpa using hh
+            · exact edgeBias_length _ _
+          · exact edgeBias_length _ _
+        have ht3 : FixTracks cn1 cn3 :=
+          fixTracks_step samp hks cn1 hsub1 perm wing hp1 cn2 ht2 _ _ (fun _ => hek)
+        have ht4 : FixTracks cn1 cn4 :=
+          fixTracks_step samp hks cn1 hsub1 perm wing hp1 cn3 ht3 _ _ (by
+            intro _; rw [List.length_map, ht3.length]; exact hlenrf)
+        have h' := Except.ok.inj h
+        rw [Prod.mk.injEq, Prod.mk.injEq] at h'
+        obtain ⟨e1, e2, _⟩ := h'
+        rw [← e1, ← e2]
+        exact hfinal cn4 ht4
 
 /-- a sample bin absent from the reference, or duplicated coordinates, make the whole class fail -/
 theorem loadAdjust_rejects (samp : List SRow) (ref : List RRow) (skipLow fixGc fixEdge fixRmask : Bool)
@@ -42,6 +336,53 @@ theorem loadAdjust_rejects (samp : List SRow) (ref : List RRow) (skipLow fixGc f
     (hbad : hasDup (samp.map sKey) = true ∨ hasDup (ref.map rKey) = true ∨
             ∃ r ∈ samp, ∀ q ∈ ref, rKey q ≠ sKey r) :
     ∃ e, loadAdjust samp ref skipLow fixGc fixEdge fixRmask par perm wing ek = .error e := by
-  sorry
+  have hsp : (sortS samp).Perm samp := List.mergeSort_perm _ _
+  have hm : ∃ e, matchRef ref (sortS samp) = .error e := by
+    rcases hbad with h | h | ⟨r, hr, hq⟩
+    · apply matchRef_rejects_dup
+      left
+      rw [hasDup_perm _ _ ((hsp.map sKey).symm)]
+      exact h
+    · exact matchRef_rejects_dup _ _ (Or.inr h)
+    · exact matchRef_rejects_missing ref (sortS samp) r (hsp.mem_iff.mpr hr) hq
+  obtain ⟨e, hm⟩ := hm
+  have he : ¬ samp.isEmpty = true := by simpa using hne
+  refine ⟨e, ?_⟩
+  unfold loadAdjust
+  rw [if_neg he]
+  simp only []
+  rw [hm]
+
+theorem chromKeyLt_asymm (a b : Nat × String) (h1 : chromKeyLt a b = true) (h2 : chromKeyLt b a = true) : False := by
+  simp only [chromKeyLt, Bool.or_eq_true, decide_eq_true_eq, Bool.and_eq_true, beq_iff_eq] at h1 h2
+  rcases h1 with h1 | ⟨e1, l1⟩ <;> rcases h2 with h2 | ⟨e2, l2⟩
+  · omega
+  · omega
+  · omega
+  · exact absurd l1 (String.lt_asymm l2)
+
+/-- the hypothesis of `fix_emits_exactly_good_bins_aligned` holds for every table whose chromosome names are told
+    apart by the sort key (no mixture of spellings such as "chr1" and "1" in one table) -/
+theorem keysSortable_of_distinct_names (samp : List SRow)
+    (h : ∀ a ∈ samp, ∀ b ∈ samp, sorterChrom a.chrom = sorterChrom b.chrom → a.chrom = b.chrom) :
+    KeysSortable samp := by
+  intro a ha b hb hab hba
+  by_cases hk : sorterChrom a.chrom = sorterChrom b.chrom
+  · have hc := h a ha b hb hk
+    have hirr : chromKeyLt (sorterChrom b.chrom) (sorterChrom b.chrom) = false := by
+      simp [chromKeyLt, String.lt_irrefl]
+    simp only [sSortLe, hc, hirr, Bool.false_or, beq_self_eq_true, Bool.true_and, Bool.or_eq_true,
+      decide_eq_true_eq, Bool.and_eq_true, beq_iff_eq] at hab hba
+    have hs : a.s = b.s := by omega
+    have he : a.e = b.e := by omega
+    simp [sKey, hc, hs, he]
+  · have hne : (sorterChrom a.chrom == sorterChrom b.chrom) = false := by simpa using hk
+    have hne' : (sorterChrom b.chrom == sorterChrom a.chrom) = false := by simpa using (Ne.symm hk)
+    simp only [sSortLe, hne, hne', Bool.false_and, Bool.or_false] at hab hba
+    exact (chromKeyLt_asymm _ _ hab hba).elim
+
+theorem keysSortable_of_one_chrom (samp : List SRow) (c : String) (h : ∀ r ∈ samp, r.chrom = c) :
+    KeysSortable samp :=
+  keysSortable_of_distinct_names samp (fun a ha b hb _ => (h a ha).trans (h b hb).symm)
 
 end CnvVerif
